@@ -62,6 +62,9 @@ class Plane:
 
         if mask is None:
             mask = np.copy(self._amplitude)
+        else:
+            # work on a copy so the caller's array is left alone
+            mask = np.array(mask)
         
         mask[mask != 0] = 1
         self._mask = mask
